@@ -12,7 +12,7 @@ def gen_value(r, depth=0, simple_numbers=False):
     k = r.random()
     if depth >= 3 or k < 0.4:
         nums = [0, 1, -1, 3.5, 42] if simple_numbers else [0, 1, -1, 3.5, 1e10, 12345678901234567, 0.001, -0.0]
-        return r.choice(nums + [True, False, None, '', 'str', 'with "quotes"', 'uni\u00e9', 'tab\there', 'a/b', '---', '[TestA - 1]', 'line\nbreak'])
+        return r.choice(nums + [True, False, None, '', 'str', 'with "quotes"', 'uni\u00e9', 'tab\there', 'a/b', '---', '[TestA - 1]', 'line\nbreak', '<a & b>', 'x>y'])
     if k < 0.75:
         keys = r.sample(['a', 'b', 'c', 'id', 'name', 'k.dot', 'sp ace', '\u00fc', 'z', 'A', 'aa'], r.randint(0, 4))
         return {kk: gen_value(r, depth + 1, simple_numbers) for kk in keys}
@@ -63,6 +63,10 @@ def make_world(g, tag):
         if sort_on and simple and isinstance(vv, (dict, list)) and r.random() < 0.3:   # a Go map has no member order: encoding/json sorts
             form = 'v'
         pres.append((present(r, vv), form))
+    if any(f == 'v' for _, f in pres):
+        # a Go value is stored through its standard JSON encoding, which writes <, > and & as
+        # \u003c, \u003e, \u0026: the textual forms of "the same document" use that encoding too
+        pres = [(t.replace('<', '\\u003c').replace('>', '\\u003e').replace('&', '\\u0026'), f) for t, f in pres]
     idx = []
     for i, (txt, form) in enumerate(pres, 1):
         w.add('begin %d %s' % (i, hx(b'TestJ%d' % i)))
